@@ -27,10 +27,12 @@ Theorem C12_guard ps all_variants :
 Proof. exact (guard_iff ps all_variants). Qed.
 
 (* a Mean / RatioOfMeans entry depends only on the statistics the metric declared: two per-variant aggregates that
-   agree on them (count, and mean/var/cov of the metric's own columns) give the same result - whatever other
-   metrics added to the merged query and whichever other variants are present *)
+   agree on them (count, mean and variance of the metric's own columns, covariance of every pair of DIFFERENT own
+   columns - exactly what aggr_cols requests) give the same result - whatever other metrics added to the merged query and
+   whichever other variants are present.  The metric's columns are pairwise different (with a repeated column the
+   code raises KeyError for every dataset, alone or in an experiment) *)
 Theorem C12_entry_depends_only_on_declared_statistics fam cfg c c' t t' :
-  agree (cfg_cols cfg) c c' -> agree (cfg_cols cfg) t t' ->
+  NoDup (cfg_cols cfg) -> agree (cfg_cols cfg) c c' -> agree (cfg_cols cfg) t t' ->
   rom_analyze_aggregates fam cfg c t = rom_analyze_aggregates fam cfg c' t'.
 Proof. exact (analysis_reads_only_declared fam cfg c c' t t'). Qed.
 
